@@ -61,11 +61,12 @@ MODEL = {
 SIM = {"quick": [("all", 7, 60)], "thorough": [("all", 8, 1500), ("aggmap", 8, 1000), ("ifadd", 8, 1000)]}
 MODEL_INVARIANTS = ["DoneOk", "NoCrash", "StackIsPath", "DepthsInRange"]
 MODEL_INVARIANTS_REPAIRED = ["LiftXorInsert", "NoStaleBinding"]     # state invariants that only the repaired print pass has
-SAMPLE_ABOVE = 10000   # a universe with more DAGs than this is sampled (seeded) down to this many; the evidence says which
+SAMPLE_ABOVE = 12500   # a universe with more DAGs than this is sampled (seeded) down to this many; the evidence says which
 CHUNK = 1200
 EXPLICIT = ("xstream", "xagg")      # profiles whose DAGs carry explicit ToStream / ToArray nodes
 
-# witnesses of the two renderer defects this check found (specification DAG vocabulary); they are replayed on the
+# witnesses of the renderer defects this check found (specification DAG vocabulary): StreamAgg free-variable
+# bookkeeping (2) and the binding-site confusion of the print pass (crash / stale frame).  They are replayed on the
 # code under test to MEASURE the model's repair flags and always run through the normal verdict path
 W_STREAMAGG_FV = {"implicit": True, "root": 1, "nodes": [
     {"op": "StreamMap", "k": [2, 3], "n": ["x1"], "v": 0}, {"op": "Ref", "k": [], "n": ["a"], "v": 0},
